@@ -18,6 +18,9 @@ impl Encoding {
 
 verus! {
 
+// the verified configuration is a 64-bit target (rustc checks this declaration against the real layout when the file is compiled)
+global size_of usize == 8;
+
 // ---- stand-ins for foreign error payload types (opaque; never inspected by the verified code)
 pub mod cfb { pub struct CfbError; }
 pub mod vba { pub struct VbaError; }
@@ -254,7 +257,8 @@ proof fn lemma_segs_text_cons(e: XlsEncoding, g: Seg, ss: Seq<Seg>)
 }
 /// the runs together hold exactly cch characters, and the cursor is the old one advanced (fragments are only ever consumed from the front)
 proof fn lemma_dbcs_units(f: Seq<Seq<u8>>, cch: nat, hb: bool)
-    ensures dbcs_segs(f, cch, hb) is Some ==> segs_units(dbcs_segs(f, cch, hb)->Some_0.0) == cch && (f.len() >= 1 ==> dbcs_segs(f, cch, hb)->Some_0.1.len() >= 1),
+    ensures dbcs_segs(f, cch, hb) is Some ==> segs_units(dbcs_segs(f, cch, hb)->Some_0.0) == cch && (f.len() >= 1 ==> dbcs_segs(f, cch, hb)->Some_0.1.len() >= 1)
+            && total(dbcs_segs(f, cch, hb)->Some_0.1) <= total(f),
     decreases f.len(), cch
 {
     if cch > 0 && f.len() > 0 {
@@ -262,17 +266,39 @@ proof fn lemma_dbcs_units(f: Seq<Seq<u8>>, cch: nat, hb: bool)
         let l = imin(f[0].len() as int / w, cch as int);
         let seg = Seg { wide: hb, bytes: f[0].subrange(0, l * w) };
         assert(seg_units(seg) == l);
+        lemma_total_unfold(f);
         if l == cch {
             assert(seq![seg].drop_first() =~= Seq::<Seg>::empty());
             assert(segs_units(seq![seg].drop_first()) == 0);
+            let g = adv(f, l * w);
+            assert(g.drop_first() =~= f.drop_first());
+            lemma_total_unfold(g);
         } else if f.len() > 1 && f[1].len() > 0 {
-            lemma_dbcs_units(adv(next_frag(f), 1), (cch - l) as nat, f[1][0] & 1 != 0);
-            match dbcs_segs(adv(next_frag(f), 1), (cch - l) as nat, f[1][0] & 1 != 0) {
+            let f2 = adv(next_frag(f), 1);
+            assert(f2.drop_first() =~= next_frag(f).drop_first());
+            lemma_total_unfold(next_frag(f));
+            lemma_total_unfold(f2);
+            assert(total(f2) <= total(f));
+            lemma_dbcs_units(f2, (cch - l) as nat, f[1][0] & 1 != 0);
+            match dbcs_segs(f2, (cch - l) as nat, f[1][0] & 1 != 0) {
                 Some((ss, g)) => { assert((seq![seg] + ss).drop_first() =~= ss); }
                 None => {}
             }
         }
     }
+}
+
+proof fn lemma_frags_head(r: Record)
+    ensures frags(r).len() >= 1, frags(r)[0] == r.data@, frags(r).drop_first() == cont_seq(r.cont),
+{
+    assert(frags(r).drop_first() =~= cont_seq(r.cont));
+}
+/// consuming k bytes of the current fragment
+proof fn lemma_frags_adv(a: Record, b: Record, k: int)
+    requires 0 <= k <= a.data@.len(), b.data@ == a.data@.subrange(k, a.data@.len() as int), b.cont == a.cont, b.typ == a.typ,
+    ensures frags(b) == adv(frags(a), k), same_record(a, b),
+{
+    assert(frags(b) =~= adv(frags(a), k));
 }
 
 /// frame of every cursor operation: the record type is never touched, and a record read without continuation list stays so
@@ -472,36 +498,110 @@ pub open spec fn sst_item(e: XlsEncoding, f: Seq<Seq<u8>>) -> Option<(Seq<char>,
 /// all fragments of one workbook stream lie in one allocation, so together they hold fewer than 2^63 bytes (Rust allocation limit)
 pub open spec fn mem_bounded(f: Seq<Seq<u8>>) -> bool { total(f) <= 0x7fff_ffff_ffff_ffff }
 
+/// the fragment ends inside a string header (after the 3 fixed bytes): malformed. The real code panics there (C06 finding), i.e. it
+/// never returns, so nothing can be promised about its result.
+pub open spec fn hdr_truncated(f: Seq<Seq<u8>>) -> bool {
+    f.len() > 0 && {
+        let f1 = if f[0].len() == 0 && f.len() > 1 { next_frag(f) } else { f };
+        f1[0].len() >= 3 && str_hdr(f1[0]) is None
+    }
+}
+
+proof fn lemma_neg_i32_as_usize(x: i32)
+    requires x < 0,
+    ensures (x as usize) >= 0xffff_ffff_8000_0000usize,
+{
+    assert((x as usize) >= 0xffff_ffff_8000_0000usize) by (bit_vector) requires x < 0;
+}
+
 //@@ fn src/xls.rs read_rich_extended_string props=C12,C19 entry ret=res
 //@@ sig
     ensures
         //# C12.sst_item
-        res is Ok ==> sst_item(*encoding, frags(*old(r))) is Some && res->Ok_0@ == sst_item(*encoding, frags(*old(r)))->Some_0.0,
+        sst_item(*encoding, frags(*old(r))) is Some ==> res is Ok && res->Ok_0@ == sst_item(*encoding, frags(*old(r)))->Some_0.0,
         //# C12.sst_item_cursor
-        res is Ok ==> sst_item(*encoding, frags(*old(r))) is Some && frags(*final(r)) == sst_item(*encoding, frags(*old(r)))->Some_0.1,
+        sst_item(*encoding, frags(*old(r))) is Some ==> res is Ok && frags(*final(r)) == sst_item(*encoding, frags(*old(r)))->Some_0.1,
         //# C12.sst_item_err_iff_malformed
-        mem_bounded(frags(*old(r))) ==> (res is Err <==> sst_item(*encoding, frags(*old(r))) is None),
+        mem_bounded(frags(*old(r))) && !hdr_truncated(frags(*old(r))) ==> (res is Err <==> sst_item(*encoding, frags(*old(r))) is None),
         //# C12.sst_item_frame
         same_record(*old(r), *final(r)),
 //@@ body
+    hide(skip_spec); hide(dbcs_segs); hide(total); hide(segs_text); hide(segs_units); hide(flat); hide(frags);
+    let ghost r0 = *r;
     let ghost f0 = frags(*r);
     let ghost e = *encoding;
+    proof { lemma_frags_head(r0); }
 //@@ before /let cch = /
+    let ghost r1 = *r;
     let ghost f1 = frags(*r);
     let ghost d = r.data@;
     proof {
+        lemma_frags_head(r1);
         assert(f1 == if f0[0].len() == 0 && f0.len() > 1 { next_frag(f0) } else { f0 });
         assert(d == f1[0]);
+        lemma_total_unfold(f0); lemma_total_unfold(f1);
+        assert(total(f1) <= total(f0));
     }
 //@@ before /let s = read_dbcs/
     let ghost h = str_hdr(d)->Some_0;
+    let ghost r2 = *r;
+    let ghost f2 = frags(*r);
     proof {
-        assert(str_hdr(d) is Some);
-        assert(frags(*r) =~= adv(f1, h.hlen));
-        assert(cch == h.cch && high_byte == h.hb && c_run == h.crun);
-        assert(h.cbext >= 0 ==> cb_ext_rst == h.cbext);
-        lemma_total_unfold(f0); lemma_total_unfold(f1);
+        if str_hdr(d) is Some {
+            assert(r.data@ =~= d.subrange(h.hlen, d.len() as int));
+            lemma_frags_adv(r1, r2, h.hlen);
+            assert(cch == h.cch && high_byte == h.hb && c_run == h.crun);
+            if h.cbext >= 0 { assert(cb_ext_rst == h.cbext); }
+            else { lemma_neg_i32_as_usize(h.cbext as i32); assert(cb_ext_rst >= 0xffff_ffff_8000_0000usize); }
+            assert(f2.drop_first() =~= f1.drop_first());
+            lemma_total_unfold(f2);
+            assert(total(f2) <= total(f1));
+            lemma_dbcs_units(f2, h.cch, h.hb);
+        }
     }
+//@@ before /r\.skip\(c_run/
+    let ghost f3 = frags(*r);
+    proof { if str_hdr(d) is Some { lemma_skip_spec_flat(f3, (4 * h.crun) as nat); } }
+//@@ before /r\.skip\(cb_ext_rst/
+    let ghost f4 = frags(*r);
+    proof { if str_hdr(d) is Some { lemma_skip_spec_flat(f4, cb_ext_rst as nat); } }
+//@@ end
+
+/// the texts of `n` consecutive strings starting at cursor `f`, and the cursor after them
+pub open spec fn sst_items(e: XlsEncoding, f: Seq<Seq<u8>>, n: nat) -> Option<(Seq<Seq<char>>, Seq<Seq<u8>>)>
+    decreases n
+{
+    if n == 0 { Some((Seq::<Seq<char>>::empty(), f)) }
+    else {
+        match sst_item(e, f) {
+            None => None,
+            Some((t, g)) => match sst_items(e, g, (n - 1) as nat) {
+                None => None,
+                Some((ts, g2)) => Some((seq![t] + ts, g2)),
+            }
+        }
+    }
+}
+/// [MS-XLS] 2.4.265 SST: cstTotal (4 bytes, signed), cstUnique (4 bytes, signed, "MUST be >= 0"), then cstUnique strings
+pub open spec fn sst_count(d: Seq<u8>) -> int { i32_of(le32(d.subrange(4, 8))) }
+pub open spec fn sst_spec(e: XlsEncoding, f: Seq<Seq<u8>>) -> Option<Seq<Seq<char>>> {
+    if f.len() == 0 || f[0].len() < 8 || sst_count(f[0]) < 0 { None }
+    else {
+        match sst_items(e, adv(f, 8), sst_count(f[0]) as nat) { Some((ts, g)) => Some(ts), None => None }
+    }
+}
+pub open spec fn texts(v: Seq<String>) -> Seq<Seq<char>> { Seq::new(v.len(), |i: int| v[i]@) }
+
+//@@ fn src/xls.rs parse_sst props=C12,C19 entry ret=res
+//@@ sig
+    ensures
+        //# C12.sst_len_guard
+        old(r).data@.len() < 8 ==> res is Err,
+        //# C12.sst_table
+        sst_spec(*encoding, frags(*old(r))) is Some ==> res is Ok && texts(res->Ok_0@) == sst_spec(*encoding, frags(*old(r)))->Some_0,
+        //# C19.sst_index
+        sst_spec(*encoding, frags(*old(r))) is Some ==> res is Ok && res->Ok_0@.len() == sst_count(old(r).data@)
+            && forall|i: int| 0 <= i < res->Ok_0@.len() ==> (#[trigger] res->Ok_0@[i])@ == sst_spec(*encoding, frags(*old(r)))->Some_0[i],
 //@@ end
 
 } // verus!
